@@ -219,6 +219,9 @@ func (t *QuicTransport) runDialingCall(call *dialingQuicCall) {
 		if c != nil {
 			c.CloseWithError(quic.ApplicationErrorCode(_DOQ_NO_ERROR), "")
 		}
+		// wake up the waiting calls
+		call.err = ErrClosedTransport
+		close(call.done)
 		return
 	}
 	t.c = c
